@@ -84,14 +84,14 @@ Definition eres_state (e : eres) : state :=
   match e with EDone st => st | EAbort st _ => st | EPanic st _ => st end.
 
 (* ------------------------------------------------------------------ pure effect of one call
-   (no inode limit, no cancellation, no fatal errors, no lazy-stat fault: the regime in which nothing aborts) *)
+   (no inode limit, no cancellation, no fatal errors: the regime in which nothing aborts) *)
 Fixpoint ext_events (c : cfg) (p : path) (size : Z) (ff : ffault) (es : list ext) (checked : bool) : list event :=
   match es with
   | [] => []
   | e :: es' =>
       EReq e p ::
-      if c_required c e p then
-        if (0 <? c_max_size c)%Z && negb checked && (c_max_size c <? size)%Z then []
+      if req c e p size ff then
+        if (0 <? c_max_size c)%Z && negb checked && (ff_stat ff || (c_max_size c <? size)%Z) then []
         else (if ff_open ff then [EOpenErr e p] else if ff_fstat ff then [EFstatErr e p] else [EExtract e p])
              ++ ext_events c p size ff es' ((0 <? c_max_size c)%Z || checked)
       else ext_events c p size ff es' checked
@@ -156,7 +156,7 @@ Definition call_quiet (c : cfg) (h : hcall) : bool :=
   if b then negb (c_fatal c)
   else match nd with
        | Dir _ ch _ => match dir_decision c ms p ch with DGiErr => false | _ => true end
-       | File _ _ _ _ ff => negb ((0 <? c_max_size c)%Z && ff_stat ff)
+       | File _ _ _ _ ff => negb (c_fatal c && (0 <? c_max_size c)%Z && ff_stat ff)
        end.
 
 Definition no_xpanic (c : cfg) : Prop := forall e p, c_extract c e p <> XPanic.
